@@ -24,6 +24,16 @@ CLAIMS = {
          "vs positions. Necessary for 'every node is listed in the level it reports' and 'children on lower levels' after a "
          "reordering; does not decide uniqueness/reducedness over histories.",
          "dimension (unit) analysis over type-checked HIR", "3.10, 4 C03"),
+ "C06": ("E-CACHE + E-CACHE.dm + E-EVENT + E-TABLE tags: get/add key pairing, memoised value = returned value, injective and "
+         "name-consistent computed tags, pairwise disjoint tag sets per rules crate; the direct-mapped cache compares and hashes "
+         "all key parts, never blocks on the operation path and keeps entries locked between pre_gc and post_gc; gc/reorder/"
+         "add_vars* of both managers emit the invalidation events in order on every path. Decides 'never served for another key' "
+         "and 'does not outlive gc/reorder' structurally, not eviction-independence as behaviour.",
+         "HIR key-table extraction + MIR dominance/post-dominance rules", "3.2, 3.5, 4 C06"),
+ "C12": ("E-POST + E-EVENT (cache-validity clause only): all MIR paths of SatCountCache::clear_if_invalid re-establish both "
+         "label fields and clear on mismatch; clear_if_invalid dominates the counting recursion in every sat_count_edge; "
+         "gc_count is bumped by gc and reorder. The count itself and the big-natural arithmetic are value-level and not decided.",
+         "MIR path enumeration (must-analysis) + dominance", "3.5, 4 C12"),
  "C08": ("E-UNITS.pre + E-UNITS + E-LIN on oxidd-reorder: level_swap's stale-number discipline (compare stored numbers with "
          "_pre parameters only, create/relabel nodes with the stale number of their level), no var/level mix-ups, no owned edge "
          "dropped by the compiler. Does not decide that functions are preserved.",
